@@ -477,8 +477,6 @@ def corr_cases(ctx):
         for key in keys:
             for form in forms:
                 for r in sorted(RENDERINGS):
-                    if False:
-                        continue                      # quick tier: ~65 % of the grid per run, the rest is sampled
                     c = gen_rendering_case(rng, key=key, rendering=r, form=form,
                                            nparts=1 if rng.random() < 0.7 else None, allow_wildcard_class=True)
                     mask = c['mask'] if rng.random() < 0.7 else gen_mask_text(rng, True)
@@ -830,7 +828,25 @@ def replay(ctx, payload):
     return 1 if why else 0
 
 
-LEVEL_TEXT = ''
-LEVEL_NOTE = ''
+LEVEL_TEXT = ('Machine-checked proof (Lean 4) over a flat-regex model whose key list and twelve pattern templates are '
+              'generated from the live compiled patterns on every run. Full strength: mask_nokey_id (no sanitize key in '
+              'lower(message) => unchanged, all messages and masks), sanitize_keys_cover_spec (35 keys), '
+              'templates_as_reviewed (any edited/added/removed/reordered pattern breaks it). Per rendering: for all eleven '
+              'renderings (key=value bare / quoted / "..." / \'...\', key "value", --key value, <key>value</key>, '
+              '"key": "value", "prefix_key": u"value", the command-list and key --flag value forms) the substitution of the '
+              'responsible pattern is proved to replace exactly the value, for every key, spelling, digit suffix, secret over '
+              'the template\'s value class, mask and surroundings (mask_rendering_<r>_partial = one pattern only; the '
+              'backtracking of [^"\']* in front of the key included). For the bare key=value and the quoted key="value" '
+              'renderings the result is lifted to mask_password as a whole (all twelve patterns of the key, the loop over '
+              'all keys) under the single-key hypothesis: mask_rendering_eq_bare_partial, mask_rendering_eq_quoted_partial, '
+              'with idempotence on the masked message. The three listed '
+              'findings are reproduced by the model on their witnesses (known_finding_*_witness). The model is tied to '
+              're / mask_password by a differential correspondence (about 5 000 / 196 000 messages per run).')
+LEVEL_NOTE = ('Partial: nine of eleven renderings are proved for their one responsible substitution only, and the two lifted '
+              'theorems (eq_bare, eq_quoted) assume that no other sanitize key occurs in the message (so keys containing other keys and '
+              'multi-secret messages are covered by correspondence and search, not by a theorem). Trusted: Lean kernel; '
+              'the translator and the hand-written flat regex engine (validated against re on every run); CPython re / '
+              'str.lower semantics outside the stated character domain; masks containing a backslash are unmodelled. '
+              'Known findings KF_C04_WILDCARD, KF_C04_FLAGVALUE, KF_C04_NESTED are excluded as explicit hypotheses.')
 TECHNIQUE = 'Lean 4 theorems over a flat-regex model generated from the live patterns + model/implementation correspondence'
 DESIGN_REF = 'DESIGN.md section 5, C04'
